@@ -87,6 +87,28 @@ def check_hex_domains(files, bad, quick):
     return n
 
 
+def check_mixed_sequences(files, bad, quick):
+    """decimal numbers keep their text next to DIEs, attributes, units and location operations in one rendered sequence"""
+    import re
+    n = 0
+    srcs = [("entry", "a DIE"), ("entry attribute", "an attribute"), ("unit", "a unit"), ("entry @AT_location elem", "a location operation"), ("entry @AT_location", "a location list entry"),
+            ("symbol", "a symbol")]
+    for f in files:
+        qs = [zw.enc('%s (|E| [E, 56, 255, E, 1000, [E, 17], 4096 dec] "%%s")' % src, dw=f, t=30, max=(200 if quick else 2000)) for src, _ in srcs]
+        for (src, what), r in zip(srcs, zw.run_cases(qs)):
+            if r.crash:
+                bad("`%s` rendered in sequences on %s: %s" % (src, os.path.basename(f), r.crash), {"file": f, "source": src, "kind": "mixed-sequence"})
+                continue
+            for st in r.results:
+                n += 1
+                txt = bytes.fromhex(st[0]["v"]).decode("latin1")
+                if not re.search(r", 56, 255, .*, 1000, \[.*, 17\], 4096\]$", txt, re.S):
+                    bad("a sequence holding %s and the decimal numbers 56, 255, 1000, 17, 4096 (out of `%s` on %s) renders as %r" % (what, src, os.path.basename(f), txt[:200]),
+                        {"file": f, "source": src, "kind": "mixed-sequence"})
+                    break
+    return n
+
+
 def default_files(quick):
     t = os.path.join(common.REPO, "tests")
     names = ["bitcount.o", "a1.out", "y.o", "nullptr.o"] if quick else ["bitcount.o", "a1.out", "y.o", "nullptr.o", "enum.o", "twocus", "dwz-partial2-1", "testfile_const_type", "y-mips.o"]
